@@ -109,9 +109,13 @@ def run_demo(demo, scratch, patch):
             return rc, o[-700:]
         # package test: find target directory from README ("copy to <dir>") or default to repo root
         tdir = scratch
-        for cand in re.findall(r"((?:internal|cmd|ast|native|builtin)(?:/[\w]+)*)", readme):
-            if os.path.isdir(os.path.join(scratch, cand)):
-                tdir = os.path.join(scratch, cand)
+        pkgdirs = {"scriggo": ".", "scriggo_test": ".", "native": "native", "native_test": "native", "builtin": "builtin",
+                   "builtin_test": "builtin", "compiler": "internal/compiler", "runtime": "internal/runtime", "main": "cmd/scriggo",
+                   "misc": "test/misc", "astutil": "ast/astutil", "astutil_test": "ast/astutil", "ast": "ast", "ast_test": "ast"}
+        for f in files:
+            m = re.search(r"^package\s+(\w+)", open(os.path.join(demo, f)).read(), flags=re.M)
+            if m and m.group(1) in pkgdirs:
+                tdir = os.path.join(scratch, pkgdirs[m.group(1)])
                 break
         copied = []
         for f in files:
